@@ -23,6 +23,7 @@ type CEnv struct {
 	st        *State
 	old       *State
 	shadowed  map[string]*Val // callsite clauses: the caller's own meaning of names hidden by the callee's parameter names (caller(e))
+	outerFr   *Frame // iter invariants: the frame that called the iterator (outer(e))
 	loopEntry *State
 	loopHead  *State // step clauses: the state at the head of the current iteration
 	results   []Val
@@ -64,6 +65,15 @@ func (fr *Frame) env(st *State) *CEnv {
 		}
 	}
 	e.parentEntry = fr.parentEntryOf(fr.fn)
+	if fr.fn.Parent() != nil {
+		// outer(e): the activation of the lexically enclosing function, when this closure runs inline under it
+		for f := fr.parent; f != nil; f = f.parent {
+			if f.fn == fr.fn.Parent() {
+				e.outerFr = f
+				break
+			}
+		}
+	}
 	return e
 }
 
@@ -1047,6 +1057,23 @@ func (e *CEnv) callExpr(x *CExpr) (Val, error) {
 		}
 		c.smt.declareFun("ctx_chan", []string{"Int"}, "Bool")
 		return Val{T: tBool, Term: app("ctx_chan", as[0].Term)}, nil
+	case "viperDuration", "viperInt", "viperBool", "viperString":
+		// viperX(v, key): what v.GetX(key) returns in the engine's model of viper (a function of the object and the key)
+		as, err := evalArgs()
+		if err != nil {
+			return Val{}, err
+		}
+		if len(as) != 2 {
+			return Val{}, fmt.Errorf("%s(v, key)", x.Name)
+		}
+		declareViperFns(c)
+		switch x.Name {
+		case "viperBool":
+			return Val{T: tBool, Term: app("viper_get_bool", as[0].Term, as[1].Term)}, nil
+		case "viperString":
+			return Val{T: tStr, Term: app("viper_get_str", as[0].Term, as[1].Term)}, nil
+		}
+		return Val{T: tInt, Term: app("viper_get_int", as[0].Term, as[1].Term)}, nil
 	case "posInf":
 		// posInf(): math.Inf(1) -- the IEEE value, or (floats real) the same uninterpreted real the model of math.Inf gives
 		if c.floatsIEEE {
@@ -1138,6 +1165,24 @@ func (e *CEnv) callExpr(x *CExpr) (Val, error) {
 			}
 		}
 		return Val{}, fmt.Errorf("no local variable %s", x.Args[0].Name)
+	case "outer":
+		// outer(e): in an iter invariant of a closure, e read as the function that passed the closure to the iterator
+		// reads it (its locals and parameters), for state the closure itself does not capture
+		if e.outerFr == nil {
+			return Val{}, fmt.Errorf("outer() is only available in iter invariants")
+		}
+		n := e.sub()
+		n.fr = e.outerFr
+		n.fn = e.outerFr.fn
+		n.useLocals = true
+		n.names = map[string]Val{}
+		for i, prm := range e.outerFr.fn.Params {
+			if i < len(e.outerFr.params) {
+				n.names[prm.Name()] = e.outerFr.params[i]
+			}
+		}
+		n.bound = map[string]bool{}
+		return n.eval(x.Args[0])
 	case "caller":
 		// caller(e): e as the function under verification reads it, i.e. without the callee's parameter names that a
 		// callsite clause binds (caller(metricName) is the caller's metricName, not the callee's parameter)
